@@ -6,6 +6,7 @@ import (
 	"go/token"
 	"go/types"
 	"regexp"
+	"sort"
 	"strings"
 
 	"golang.org/x/tools/go/ssa"
@@ -40,11 +41,72 @@ func runC16(e *Env) {
 	}
 	r.Count("functions of package disasm", len(fns))
 	r.Floor("E6.panic(functions)", len(fns), 3)
+	// functions of other packages of the module that the extraction reaches (a line reader or a lookup helper moved to
+	// arch/ or to an internal package is part of "extraction terminates without panicking" like the parser itself)
+	{
+		have := map[*ssa.Function]bool{}
+		for _, f := range fns {
+			have[f] = true
+		}
+		var reach func(f *ssa.Function)
+		reach = func(f *ssa.Function) {
+			for _, c := range flow.Calls(f) {
+				cal := flow.Callee(c)
+				if cal == nil || have[cal] || cal.Pkg == nil || len(cal.Blocks) == 0 || !strings.HasPrefix(cal.Pkg.Pkg.Path(), load.Module) {
+					continue
+				}
+				have[cal] = true
+				fns = append(fns, cal)
+				for _, a := range cal.AnonFuncs {
+					if !have[a] {
+						have[a] = true
+						fns = append(fns, a)
+					}
+				}
+				reach(cal)
+			}
+		}
+		for _, f := range append([]*ssa.Function{}, fns...) {
+			reach(f)
+		}
+	}
+	pkgPats := map[string]bool{"./cmd/seccomp-profiler/disasm": true}
+	for _, f := range fns {
+		if f.Pkg != nil {
+			pkgPats["./"+strings.TrimPrefix(strings.TrimPrefix(f.Pkg.Pkg.Path(), load.Module), "/")] = true
+		}
+	}
+	var pats []string
+	for pp := range pkgPats {
+		pats = append(pats, pp)
+	}
+	sort.Strings(pats)
+	r.Count("packages the extraction reaches (bounds-check listing)", len(pats))
 
 	// ---- compiler BCE list
-	bces, err := nopanic.CompilerBCE(p.Dir, "./cmd/seccomp-profiler/disasm")
-	if err != nil {
-		r.Unknown("E6.panic", "compiler-bce", "", err.Error())
+	var bces []nopanic.BCE
+	for _, pp := range pats {
+		bs, err := nopanic.CompilerBCE(p.Dir, pp)
+		if err != nil {
+			r.Unknown("E6.panic", "compiler-bce", "", err.Error())
+		}
+		bces = append(bces, bs...)
+	}
+	// a check in a function of another package that the extraction does not reach is not this property's
+	{
+		inFns := map[string]bool{}
+		for _, f := range fns {
+			if f.Pos().IsValid() {
+				inFns[p.Fset.Position(f.Pos()).Filename] = true
+			}
+		}
+		kept := bces[:0]
+		for _, b := range bces {
+			if strings.Contains(b.File, "/cmd/seccomp-profiler/disasm/") || nopanic.FindSite(p.Fset, fns, b) != nil {
+				kept = append(kept, b)
+			}
+		}
+		bces = kept
 	}
 	r.Count("unproven bounds checks listed by the compiler", len(bces))
 	for _, b := range bces {
@@ -166,6 +228,7 @@ func runC16(e *Env) {
 	}
 	r.Count("other potential panic sites scanned", nScan)
 	r.OK("E6.panic", "ssa-scan", "", fmt.Sprintf("%d functions scanned for type assertions, panics, divisions, map stores, MustCompile", len(fns)))
+	checkArgPanics(e, p, fns, "E6.panic", nil, false)
 	checkNilDeref(e, p, fns)
 	checkTermination(e, p, fns, "disasm")
 	checkScanErr(e, p, fns)
